@@ -285,6 +285,131 @@ def dictwrapper_campaign(ctx, out, n):
             out.fail(case, f"clone groups differ after the DictWrapper round trip: {S.clone_groups(t2)} != {groups}")
 
 
+FS_KEY_MAPS = {"default": True, "off": False, "custom": {"data_id": "i"}}
+
+
+def fs_hook(tree, data):
+    return "id:" + data.name
+
+
+def fs_build(spec, ids):
+    """spec: nested [name, is_dir, size, mdate, clone_of, kids]; clone_of = name of an earlier FILE entry whose data object is added
+    again (a clone).  ids: 'hash' (default ids: object hashes, not preserved by a file), 'explicit' (data_id = relative path of
+    the first occurrence), 'hook' (calc_data_id -> 'id:' + name)."""
+    from nutree.fs import FileSystemEntry, FileSystemTree
+
+    tree = FileSystemTree("fs", **({"calc_data_id": fs_hook} if ids == "hook" else {}))
+    seen = {}
+
+    def fill(parent, kids, prefix):
+        for name, is_dir, size, mdate, clone_of, sub in kids:
+            if clone_of is not None:
+                e, rel = seen[clone_of]
+            else:
+                e = FileSystemEntry(name, is_dir=True) if is_dir else FileSystemEntry(name, size=size, mdate=mdate)
+                rel = prefix + name
+                seen[name] = (e, rel)
+            node = parent.add(e, **({"data_id": rel} if ids == "explicit" else {}))
+            fill(node, sub, prefix + name + "/")
+
+    fill(tree, spec, "")
+    return tree
+
+
+def fs_shape(tree, ids):
+    objs = []
+
+    def w(n):
+        e = n.data
+        if not any(e is o for o in objs):
+            objs.append(e)
+        g = next(i for i, o in enumerate(objs) if o is e)
+        return [e.name, bool(e.is_dir), e.size, e.mdate, (n.data_id if ids != "hash" else None), g, [w(c) for c in n.children]]
+
+    return [w(c) for c in tree.children]
+
+
+def fs_random_spec(rng, n):
+    shape = gen.random_shape(rng, n)
+    cnt = itertools.count()
+    files = []
+
+    def mk(kids, taken):
+        res = []
+        names_here = set()
+        for sub in kids:
+            i = next(cnt)
+            if not sub and files and rng.random() < 0.3:
+                cands = [f for f in files if f not in names_here and f not in taken]
+                if cands:
+                    c = rng.choice(cands)
+                    names_here.add(c)
+                    res.append([c, False, None, None, c, []])
+                    continue
+            if sub or rng.random() < 0.2:
+                res.append([f"d{i}", True, None, None, None, None])
+                res[-1][5] = mk(sub, set())
+            else:
+                name = f"f{i}-\u00fc.txt" if i % 4 == 0 else f"f{i}.txt"
+                files.append(name)
+                names_here.add(name)
+                res.append([name, False, rng.randrange(0, 5000), rng.randrange(10 ** 9, 2 * 10 ** 9) + rng.choice([0.0, 0.5, 0.25]), None, []])
+        return res
+
+    return mk(shape, set())
+
+
+def fs_case(ctx, out, case, tmpdir, counter):
+    from nutree.fs import FileSystemTree
+
+    spec, ids = case["spec"], case["ids"]
+    tree = fs_build(spec, ids)
+    before = fs_shape(tree, ids)
+    comp = eval(case["compression"], {"__builtins__": {}}, {"True": True, "False": False})
+    kw = dict(key_map=FS_KEY_MAPS[case["key_map"]], value_map=S.VALUE_MAPS[case["value_map"]] if case["value_map"] != "custom" else True, meta={"scan": "x"})
+    lkw = {}
+    if case["explicit_mappers"]:
+        kw["mapper"] = FileSystemTree.serialize_mapper
+        lkw["mapper"] = FileSystemTree.deserialize_mapper
+    try:
+        if case["path"]:
+            path = os.path.join(tmpdir, f"fs{next(counter)}.nutree")
+            tree.save(path, compression=comp, **kw)
+            t2 = FileSystemTree.load(path, **lkw)
+        else:
+            fp = io.StringIO()
+            tree.save(fp, **kw)
+            t2 = FileSystemTree.load(io.StringIO(fp.getvalue()), **lkw)
+    except Exception as e:  # noqa
+        out.fail(case, f"FileSystemTree save/load raised {type(e).__name__}: {e}")
+        return
+    if fs_shape(tree, ids) != before:
+        out.fail(case, "save() changed the file-system tree")
+    after = fs_shape(t2, ids)
+    if after != before:
+        out.fail(case, f"FileSystemTree: load(save(tree)) differs (name, is_dir, size, mdate, data_id, clone group, children): {after} != {before}", impl=after, expected=before)
+    if type(t2) is not FileSystemTree:
+        out.fail(case, f"loaded tree is a {type(t2).__name__}")
+    try:
+        t2._self_check()
+    except Exception as e:  # noqa
+        out.fail(case, f"_self_check of the loaded tree: {e!r}")
+
+
+def fs_campaign(ctx, out, n, tmpdir, counter):
+    """FileSystemTree built by the application (entries added by hand: default ids, explicit relative-path ids, a calc_data_id
+    hook; the same file entry below several folders = clones) through save/load with rotating options."""
+    rng = ctx.rng
+    kms, vms = list(FS_KEY_MAPS), ["default", "off"]
+    for k in range(n):
+        case = dict(fs=True, spec=fs_random_spec(rng, rng.randrange(2, 11)), ids=["hash", "explicit", "hook"][k % 3], key_map=kms[(k // 3) % 3],
+                    value_map=vms[(k // 9) % 2], compression=repr(S.COMPRESSIONS[k % len(S.COMPRESSIONS)] if k % 2 else False), path=bool(k % 2),
+                    explicit_mappers=bool((k // 2) % 2))
+        fs_case(ctx, out, case, tmpdir, counter)
+        out.count(("fs", json.dumps(case, sort_keys=True)), len(json.dumps(case["spec"])) > 120)
+        out.dist["cfg:filesystem-" + case["ids"]] += 1
+
+
 def run(ctx):
     out = core.Outcome(
         rule="trees: plain str, objects with callback mappers, derived-class mappers, typed (str, objects, derived); clones at every relative position "
@@ -342,6 +467,7 @@ def run(ctx):
                 out.sample(dict(cfg=cfg, tree=spec))
         out.extra["option_combinations"] = len(combos)
         dictwrapper_campaign(ctx, out, 150 if ctx.thorough else 36)
+        fs_campaign(ctx, out, 240 if ctx.thorough else 54, tmpdir, counter)
     finally:
         shutil.rmtree(tmpdir, ignore_errors=True)
     return out
@@ -354,6 +480,9 @@ def replay(ctx, rp):
     out = core.Outcome()
     tmpdir = tempfile.mkdtemp(prefix="nutree_verif_c05_")
     try:
+        if case.get("fs"):
+            fs_case(ctx, out, case, tmpdir, itertools.count())
+            return dict(failures=[f["what"] for f in out.oracle_failures[:5]], property_holds=not out.oracle_failures)
         cfg = case["cfg"]
         spec = tuplify_d(case["spec"])
         typed = cfg.startswith("typed")
